@@ -419,8 +419,9 @@ def parcor_stable(filt):
     Tests filter stability with Line Spectral Frequencies (LSF) values.
 
   """
-  try:
-    return all(abs(k) < 1 for k in parcor(ZFilter(filt.denpoly)))
+  den = filt.denpoly
+  try: # The step-down recursion needs a monic polynomial
+    return all(abs(k) < 1 for k in parcor(ZFilter(den / den[0])))
   except ParCorError:
     return False
 
